@@ -1,0 +1,15 @@
+//go:build verif
+
+package migrator
+
+import "github.com/jdillenkofer/pithos/internal/storage"
+
+// History predicates used by the contracts in zz_contracts_verif.go (see /verif/DESIGN.md): uninterpreted for the
+// verifier; the only facts about them are the `history` clauses, which record that a call has returned successfully
+// in the execution under verification.
+
+func histBucketMigrated(b storage.BucketName) bool { return true }
+
+func histObjectMigrated(b storage.BucketName, k storage.ObjectKey) bool { return true }
+
+func histBucketCreated(b storage.BucketName) bool { return true }
